@@ -19,3 +19,4 @@ def check(repo, rep, tier):
     rep.run(rf.rule_end_of_input, em, rep, 'C10.G3', g, gp)
     rep.run(rf.rule_visitor_dispatch, em, rep, 'C10.G4')
     rep.run(rf.rule_cli_exit, em, rep, 'C10.G5', lc or [])
+    rep.run(rf.rule_rejections_not_swallowed, em, rep, 'C10.G6', g)
